@@ -498,6 +498,7 @@ func runC18(c *Ctx) {
 	checkCallbackProducersHandOverInline(c, "C18-R5")
 	checkClientStopAlwaysStopsQueue(c, "C18-R5")
 	checkSpawnGuardsAreAtomicTestAndSet(c, "C18-R5")
+	checkNeutrinoProducerDiscipline(c, "C18-R4", "bc")
 	checkProducerNotifiesRelevantTxOnce(c, "C18-R4")
 	checkReorgListBuiltInOneDirection(c, "C18-R4") // the producer enqueues a reorganised branch in chain order
 }
@@ -763,4 +764,205 @@ func checkSpawnGuardsAreAtomicTestAndSet(c *Ctx, rule string) {
 		}
 	}
 	c.Floor(rule, "goroutine starts gated by an atomically accessed flag", n, 2)
+}
+
+// sendsOf: the send statements / select statements of fn that send a value whose dynamic type is named typeName
+// (BlockDisconnected, *RescanFinished, FilteredBlockConnected ...).
+func sendsOf(fn *ssa.Function, typeName string) []ssa.Instruction {
+	is := func(v ssa.Value) bool {
+		if v == nil {
+			return false
+		}
+		if mi, ok := v.(*ssa.MakeInterface); ok {
+			v = mi.X
+		}
+		t := v.Type()
+		if pt, ok := t.Underlying().(*types.Pointer); ok {
+			t = pt.Elem()
+		}
+		n, ok := t.(*types.Named)
+		return ok && n.Obj().Name() == typeName
+	}
+	var out []ssa.Instruction
+	for _, b := range fn.Blocks {
+		for _, ins := range b.Instrs {
+			switch x := ins.(type) {
+			case *ssa.Send:
+				if is(x.X) {
+					out = append(out, x)
+				}
+			case *ssa.Select:
+				for _, st := range x.States {
+					if st.Send != nil && is(st.Send) {
+						out = append(out, x)
+						break
+					}
+				}
+			}
+		}
+	}
+	return out
+}
+
+// checkNeutrinoProducerDiscipline: necessary conditions on the light-client producer's hand-overs, each visible in the
+// shape of one callback:
+// (a) a block-disconnected event is always handed over: in a callback that enqueues BlockDisconnected no return is
+//     reachable without having passed that hand-over (its quit cases belong to it) — "only while no rescan is catching
+//     up" loses the disconnects of a reorganisation that happens during a key rescan;
+// (b) a block's own notification precedes the rescan-finished it may trigger: where a callback enqueues a connected
+//     block and calls the rescan-finished dispatcher, the dispatcher is not reachable without the hand-over;
+// (c) rescan-finished is announced in the finished state: every hand-over of RescanFinished is preceded by the store
+//     finished = true in its function (otherwise the next block announces progress and a second rescan-finished);
+// (d) the rescan-finished of a running rescan is not switched off by an unrelated request: a function that tests whether
+//     a rescan is running stores finished = true only past the edge on which none is.
+func checkNeutrinoProducerDiscipline(c *Ctx, rule string, parts string) {
+	p := c.P
+	storesFlag := func(fn *ssa.Function, field string, val bool) []ssa.Instruction {
+		var out []ssa.Instruction
+		for _, st := range storesToFieldOwner(fn, "NeutrinoClient", field) {
+			if b, ok := constBool(st.Val); ok && b == val {
+				out = append(out, st)
+			}
+		}
+		return out
+	}
+	isInstr := func(set []ssa.Instruction) func(ssa.Instruction) bool {
+		return func(i ssa.Instruction) bool {
+			for _, s := range set {
+				if s == i {
+					return true
+				}
+			}
+			return false
+		}
+	}
+	nA, nB, nC, nD := 0, 0, 0, 0
+	for _, fn := range p.FuncsIn("chain") {
+		if recvName(outermost(fn)) != "NeutrinoClient" {
+			continue
+		}
+		// (a)
+		if strings.Contains(parts, "a") {
+			if sends := sendsOf(fn, "BlockDisconnected"); len(sends) > 0 {
+				nA++
+				q := &PathQuery{Fn: fn, Barrier: isInstr(sends)}
+				q.Target = func(i ssa.Instruction, _ *ssa.BasicBlock) bool { _, ok := i.(*ssa.Return); return ok }
+				hits := q.From(nil)
+				c.Check(rule, "disconnect-always-handed-over:"+fn.Name(), fn.Pos(), len(hits) == 0,
+					fnName(fn)+" can return without handing the block-disconnected event to the notification queue: the wallet never rewinds its tip and its transaction store for that block, whose transactions stay confirmed in a block that left the chain")
+			}
+		}
+		// (b)
+		if strings.Contains(parts, "b") {
+			// (the filtered block carries the block's relevant transactions; the plain block-connected announcement is
+			// withheld for pre-birthday blocks altogether, so nothing can be demanded of it)
+			conn := sendsOf(fn, "FilteredBlockConnected")
+			if len(conn) > 0 {
+				for _, call := range callsNamed(fn, "dispatchRescanFinished") {
+					nB++
+					q := &PathQuery{Fn: fn, Barrier: isInstr(conn)}
+					tgt := call
+					q.Target = func(i ssa.Instruction, _ *ssa.BasicBlock) bool { return i == ssa.Instruction(tgt) }
+					c.Check(rule, "block-handed-over-before-rescan-finished:"+fn.Name(), call.Pos(), len(q.From(nil)) == 0,
+						fnName(fn)+" can announce rescan-finished before the block that completes the rescan has been handed over: the consumer sees RescanFinished for the tip ahead of the tip's own notification")
+				}
+			}
+		}
+		// (c)
+		if strings.Contains(parts, "c") {
+			if fin := sendsOf(fn, "RescanFinished"); len(fin) > 0 {
+				set := storesFlag(fn, "finished", true)
+				for _, s := range fin {
+					nC++
+					q := &PathQuery{Fn: fn, Barrier: isInstr(set)}
+					// ... or the flag was just computed and the hand-over sits behind the edge on which it is true
+					finishedEdge := func(from *ssa.BasicBlock, si int) bool {
+						f := edgeFactOf(from, si)
+						if f == nil || f.Kind != "true" {
+							return false
+						}
+						_, fld, _, ok := fieldOf(stripConv(f.V))
+						return ok && fld == "finished"
+					}
+					q.EdgeBarrier = func(from *ssa.BasicBlock, si int) bool {
+						if finishedEdge(from, si) {
+							return true
+						}
+						// `hdr, ok := s.tryMarkFinished(bs); if !ok { return }`: a private part that answers true only
+						// after it recorded (or just computed and tested) the finished state
+						f := edgeFactOf(from, si)
+						if f == nil || f.Kind != "true" {
+							return false
+						}
+						ex, ok := stripConv(f.V).(*ssa.Extract)
+						if !ok {
+							return false
+						}
+						hc, ok := ex.Tuple.(*ssa.Call)
+						if !ok {
+							return false
+						}
+						h := hc.Call.StaticCallee()
+						if h == nil || len(h.Blocks) == 0 || h.Object() == nil || h.Object().Exported() || recvName(h) != "NeutrinoClient" {
+							return false
+						}
+						hq := &PathQuery{Fn: h, Barrier: isInstr(storesFlag(h, "finished", true)), EdgeBarrier: finishedEdge}
+						hq.Target = func(i ssa.Instruction, _ *ssa.BasicBlock) bool {
+							r, ok := i.(*ssa.Return)
+							if !ok || ex.Index >= len(r.Results) {
+								return false
+							}
+							bv, isC := constBool(effectiveResult(r, ex.Index)) // (results are spilled where the part defers its unlock)
+							return !isC || bv
+						}
+						return len(hq.From(nil)) == 0
+					}
+					tgt := s
+					q.Target = func(i ssa.Instruction, _ *ssa.BasicBlock) bool { return i == tgt }
+					c.Check(rule, "rescan-finished-announced-in-finished-state:"+fn.Name(), s.Pos(), len(q.From(nil)) == 0,
+						fnName(fn)+" hands over RescanFinished without having recorded that the rescan is finished: the next block makes the client announce progress and rescan-finished once more for the same rescan")
+				}
+			}
+		}
+		// (d)
+		if strings.Contains(parts, "d") {
+			if len(sendsOf(fn, "RescanFinished")) > 0 {
+				continue
+			}
+			set := storesFlag(fn, "finished", true)
+			testsScanning := false
+			notScanning := func(from *ssa.BasicBlock, si int) bool {
+				f := edgeFactOf(from, si)
+				if f == nil {
+					return false
+				}
+				if _, fld, _, ok := fieldOf(stripConv(f.V)); ok && fld == "scanning" {
+					testsScanning = true
+					return f.Kind == "false"
+				}
+				return false
+			}
+			for _, st := range set {
+				reach := reachableAvoiding(fn, nil, st, notScanning)
+				if !testsScanning {
+					continue
+				}
+				nD++
+				c.Check(rule, "finished-flag-set-only-when-no-rescan-runs:"+fn.Name(), st.Pos(), !reach,
+					fnName(fn)+" marks the client's rescan as finished although a rescan may be running (the store is reachable without having taken the 'not scanning' edge): that rescan's RescanFinished is never announced — and the wallet re-offers its unconfirmed transactions only on that announcement")
+			}
+		}
+	}
+	if strings.Contains(parts, "a") {
+		c.Floor(rule, "neutrino callbacks enqueueing a block-disconnected event", nA, 1)
+	}
+	if strings.Contains(parts, "b") {
+		c.Floor(rule, "neutrino callbacks that may trigger rescan-finished after a connected block", nB, 1)
+	}
+	if strings.Contains(parts, "c") {
+		c.Floor(rule, "hand-overs of RescanFinished by the neutrino client", nC, 2)
+	}
+	if strings.Contains(parts, "d") {
+		c.Floor(rule, "finished-flag stores in functions that test for a running rescan", nD, 1)
+	}
 }
